@@ -199,7 +199,54 @@ def sensitivity(tier, seed, only=None):
     return 0 if killed == len(counted) else 1
 
 
+def known_findings_examples(tier, seed):
+    """Replay the example of every known finding: each must still violate its
+    property with a signature the entry matches (otherwise the entry is stale)."""
+    import fnmatch
+    from sim import findings, driver
+    stale = 0
+    for e in findings.load():
+        ex = e.get("example")
+        if not ex:
+            print("known-finding %-34s no example" % e.get("id"))
+            continue
+        engine = driver.PROPS[e["property"]]["engine"]
+        if engine == "envsim":
+            case = {"engine": "envsim", "source": ex["source"], "schedules": ex.get("schedules"),
+                    "nsched": 40, "env_seed": 1, "focus": e["property"]}
+            if not ex.get("schedules"):
+                case.pop("schedules")
+        elif engine == "histsim":
+            case = {"engine": "histsim", "workload": ex["workload"], "history": ex["history"],
+                    "conf": {"focus": e["property"], "faults": True, "style": "frontend",
+                             "enabled": {"restart-dict": True, "restart-yaml": True, "restart2": True},
+                             "weights": {}, "nops": len(ex["history"])}}
+        else:
+            print("known-finding %-34s engine %s: no replay form" % (e.get("id"), engine))
+            continue
+        out = fleet.spawn_node({"mode": "replay", "engine": engine, "case": case, "hash_seed": 0}, timeout=300)
+        if not out.get("ok"):
+            print("known-finding %-34s HARNESS-ERROR %s" % (e.get("id"), out.get("error")))
+            stale += 1
+            continue
+        eng = driver._engine(engine)
+        hit = None
+        for v in out["result"]["violations"]:
+            if v["property"] == e["property"] and fnmatch.fnmatchcase(v["signature"], e["signature"]):
+                facts = eng.where_facts(case, v)
+                if all(findings._fact_ok(val, facts.get(k)) for k, val in (e.get("where") or {}).items()):
+                    hit = v
+                    break
+        print("known-finding %-34s %s %s" % (e.get("id"), "still reproduces:" if hit else "DOES NOT REPRODUCE",
+                                             hit["signature"] if hit else [v["signature"] for v in out["result"]["violations"]]))
+        if not hit:
+            stale += 1
+    return 1 if stale else 0
+
+
 def main(what, tier, seed):
+    if what == "selftest-findings":
+        return known_findings_examples(tier, seed)
     if what == "selftest-determinism":
         return determinism(tier, seed)
     if what.startswith("selftest-sensitivity"):
